@@ -532,7 +532,13 @@ pub fn run(cx: &Cx) {
         Ok(p) => p,
         Err(e) => return cx.machinery_error(format!("current_exe: {e}")),
     };
-    let fams = gen::families(thorough);
+    let mut fams = gen::families(thorough);
+    // development aid (never set by ./check): AGV_C12_ONLY=multipart-map,nest/ restricts the run to families with these prefixes
+    if let Ok(only) = std::env::var("AGV_C12_ONLY") {
+        let pre: Vec<&str> = only.split(',').filter(|s| !s.is_empty()).collect();
+        fams.retain(|f| pre.iter().any(|p| f.name.starts_with(p)));
+        cx.extra("restricted_to_families(AGV_C12_ONLY)", json!(pre));
+    }
     let par: usize = std::env::var("AGV_C12_PAR").ok().and_then(|s| s.parse().ok()).unwrap_or(16);
 
     // jobs, biggest families first
